@@ -394,7 +394,9 @@ func wireCase(r *vf.Run, c c9case) (sent bool) {
 		return false
 	}
 	w := rig.Rewrite(l, s, a)
-	desc := func() string { return fmt.Sprintf("path %s to %s, Adj-RIB-Out %s", a.Short(), s, rig.ShortList(out.stored)) }
+	desc := func() string {
+		return fmt.Sprintf("path %s to %s, Adj-RIB-Out %s", a.Short(), s, rig.ShortList(out.stored))
+	}
 	// W4: LOCAL_PREF only to iBGP peers
 	if (pa.LocalPref != nil) != s.IBGP() {
 		r.Violate(vf.Violation{Clause: "wire:W4-local-pref", Features: feat(), Case: c, Detail: fmt.Sprintf("LOCAL_PREF present=%v on a session with iBGP=%v: %s", pa.LocalPref != nil, s.IBGP(), desc())})
